@@ -279,6 +279,17 @@ Theorem cylinderize_spec : forall f z0 z1 s0 s1 xs t c,
     else call_val (b_line z0 z1 s0 s1) [t] (c - nc f).
 Proof. exact cylinderize_spec_l. Qed.
 
+(* ... with the documented defaults (support=(0,1), z0=0, z1=1): z = z0 + t (z1 - z0) for t in [0,1] -- the new
+   axis is NOT parametrised over (z0, z1) -- and z = t without any argument *)
+Theorem cylinderize_defaults_spec : forall f z0 z1 xs t,
+  0 <= t -> t <= 1 -> Forall2 in_dom (kvs f) (rev xs) ->
+  call_val (b_cylinderize_default_support f z0 z1) (xs ++ [t]) (nc f) = z0 + t * (z1 - z0)
+  /\ call_val (b_cylinderize_defaults f) (xs ++ [t]) (nc f) = t
+  /\ forall c, (c < nc f)%nat ->
+       call_val (b_cylinderize_default_support f z0 z1) (xs ++ [t]) c = call_val f xs c
+       /\ call_val (b_cylinderize_defaults f) (xs ++ [t]) c = call_val f xs c.
+Proof. exact cylinderize_defaults_l. Qed.
+
 (* ComposedFunction(geo2, geo1): grid_eval is geo2 at the point geo1(x) (component i of geo1 = xyz
    coordinate i of geo2); row c of grid_jacobian is sum_a J2[c][a] J1[a][j] with J2 the Jacobian of geo2
    at geo1(x) and J1 that of geo1 at x -- i.e. matmul(J2, J1), also for a scalar geo2 (c = 0) *)
@@ -439,6 +450,7 @@ Print Assumptions boundary_support_spec.
 Print Assumptions boundary_function_is_trace.
 Print Assumptions copy_spec.
 Print Assumptions cylinderize_spec.
+Print Assumptions cylinderize_defaults_spec.
 Print Assumptions composed_routes.
 Print Assumptions nurbs_hessian_is_derivative.
 Print Assumptions disk_boundary_on_circle.
